@@ -46,6 +46,8 @@ Definition spec_jac_col (n m : nat) (w : option (seq F)) (Phi Dk C : smx) : opti
   if proj_compl n m (wscale w Phi) (smul n (wscale w Dk) C) is Some M
   then Some (flatten (sopp M)) else None.
 
+Definition sq (x : F) : F := x * x.
+
 (* ---------------------------------------------------------------- conditioning / tolerances *)
 Definition strace (A : smx) : F := foldr (fun x acc => x + acc) 0 (sdiagv A).
 
@@ -183,6 +185,56 @@ Definition check_rankdef (mode : nat) (cu2 floor2 k2max eps2 : F) (n m : nat) (w
         else 0%N
   end.
 
+(* ---------------------------------------------------------------- the implementation's formula, replayed *)
+(* nalgebra's SVD::solve as used by set_params: C = V diag(sigma_i > eps ? 1/sigma_i : 0) U^T B, evaluated
+   exactly on the factors the problem cached (hook verif_svd).  Proofs/SvdExecP.v: this is LinAlg.solve. *)
+Definition svd_solve_exec (n k m : nat) (U : smx) (sg : seq F) (Vt : smx) (eps : F) (B : smx) : smx :=
+  let sginv := [seq (if eps < x then x^-1 else 0) | x <- sg] in
+  smul m (strans k Vt) (srowscale sginv (smul k (strans n U) B)).
+
+(* validation of the contract svd_spec on the cached factors, and of the code-shaped formula:
+   40 U^T U <> 1, 41 Vt Vt^T <> 1, 42 W Phi <> U diag(sigma) Vt, 43 a negative singular value,
+   44 coefficients are not the truncated-SVD solve of the cached factors, 2 shapes *)
+Definition check_svd (cu2 floor2 eps : F) (n m : nat) (w : option (seq F)) (Phi Y : smx)
+           (U : smx) (sg : seq F) (Vt : smx) (Cimpl : smx) : nat :=
+  let k := size sg in
+  let s := size Y in
+  let A := wscale w Phi in
+  let B := wscale w Y in
+  let e2 := cu2 * (n * m)%N%:R in
+  if ~~ [&& wf n m Phi, wf n s Y, wf n k U, wf k m Vt & wf m s Cimpl] then 2%N
+  else if ~~ (sfro2 (ssub (smul k (strans n U) U) (sident F k)) <= e2) then 40%N
+  else if ~~ (sfro2 (ssub (smul k Vt (strans k Vt)) (sident F k)) <= e2) then 41%N
+  else if ~~ (sfro2 (ssub A (smul n U (srowscale sg Vt))) <= e2 * Num.max (sfro2 A) floor2) then 42%N
+  else if ~~ all (fun x => 0 <= x) sg then 43%N
+  else
+    let sginv2 := foldr (fun x acc => Num.max (if eps < x then sq x^-1 else 0) acc) 0 sg in
+    if svnrm2 (svsub (flatten Cimpl) (flatten (svd_solve_exec n k m U sg Vt eps B)))
+       <= e2 * Num.max (sginv2 * sfro2 B) floor2 then 0%N else 44%N.
+
+(* the implementation's Jacobian formula replayed on its own cached U and coefficients:
+   column k = vec( U (U^T (W D_k C)) - W D_k C );  code 45+k: column k differs, 2 shapes *)
+Definition jac_col_exec (n k : nat) (w : option (seq F)) (U Dk C : smx) : seq F :=
+  let V := smul n (wscale w Dk) C in
+  flatten (ssub (smul n U (smul k (strans n U) V)) V).
+
+Definition check_jac_impl (cu2 floor2 : F) (n m : nat) (w : option (seq F)) (U : smx) (Ds : seq smx)
+           (C J : smx) : nat :=
+  let k := size U in
+  let s := size C in
+  if ~~ [&& wf n k U, wf m s C, all (wf n m) Ds & size J == size Ds] then 2%N else
+  let e2 := cu2 * (n * m)%N%:R in
+  let fix cols (i : nat) (Js : smx) (Dl : seq smx) : nat :=
+    match Js, Dl with
+    | jc :: Jr, Dk :: Dr =>
+        let V := smul n (wscale w Dk) C in
+        if size jc != (s * n)%N then 2%N
+        else if svnrm2 (svsub jc (jac_col_exec n k w U Dk C)) <= e2 * Num.max (sfro2 V) floor2 then cols i.+1 Jr Dr
+        else (45 + i)%N
+    | _, _ => 0%N
+    end in
+  cols 0%N J Ds.
+
 (* best fit of a result: Phi(alpha) * C (unweighted), n x s; code 0 ok, 2 shapes, 7 values *)
 Definition check_bestfit (cu2 floor2 : F) (n m : nat) (Phi C BF : smx) : nat :=
   let s := size C in
@@ -228,7 +280,6 @@ Record stats_obs := {
   sb_bands : seq (F * seq F);      (* (t quantile used, radius vector) per probability *)
 }.
 
-Definition sq (x : F) : F := x * x.
 (* |a - b| <= rel * max(|b|, floor), tested on squares *)
 Definition close1 (rel2 floor2 : F) (a b : F) : bool := sq (a - b) <= rel2 * Num.max (sq b) floor2.
 
